@@ -5,6 +5,7 @@ C02 — The tower broadcasts only what an observed breach justifies.
 enumerate its call sites in the model and state what each can submit.
 -/
 import TeosVerif.Lemmas.Tower
+import TeosVerif.Lemmas.TowerJust
 
 namespace Teos.C02
 open Teos
@@ -170,5 +171,88 @@ the transactions of the disconnected block (C19 gives the exact window) -/
 theorem disconnect_updates_cache (s : Tower) (b H : Nat) :
     (disconnectBlock s b H).mem.cache = s.mem.cache.removeDisconnected b := by
   simp [disconnectBlock, watcherDisconnect, respDisconnect]
+
+/-! ### whole histories -/
+
+/-- a fresh tower started on any recent blocks, with the ghost record of what those blocks showed -/
+def start (height : Nat) (blocks : List (Nat × List TxId)) : Tower × Ghost :=
+  (boot Db.empty height blocks, { seen := blocks.flatMap (·.2), accepted := [], sent := [] })
+
+theorem start_inv (height : Nat) (blocks : List (Nat × List TxId)) : GInv (start height blocks) := by
+  refine ⟨just_boot _ _ _ _ (fun k t h => by cases h) ?_, ?_, fun tx h => by cases h⟩
+  · intro b hb x hx
+    exact List.mem_flatMap.2 ⟨b, hb, hx⟩
+  · intro k b h
+    obtain ⟨a, ha, _⟩ := h
+    cases ha
+
+/-- **every_broadcast_is_justified**: after ANY history of requests, block connections and
+disconnections (any node behaviour, no bound on length), every transaction the tower has handed to
+the node is the penalty that the blob of an appointment it had answered with a receipt decrypts to
+under a transaction of a connected block carrying that appointment's locator — or that dispute
+transaction itself. -/
+theorem every_broadcast_is_justified (cfg : Cfg) (height : Nat) (blocks : List (Nat × List TxId))
+    (hist : List (Node × Op)) (tx : TxId) (h : tx ∈ (runG cfg (start height blocks) hist).2.sent) :
+    ∃ k b d p, (k, b) ∈ (runG cfg (start height blocks) hist).2.accepted ∧
+      d ∈ (runG cfg (start height blocks) hist).2.seen ∧ locOf d = k.1 ∧ b.decrypt d = some p ∧ (tx = p ∨ tx = d) :=
+  (ginv_runG cfg hist _ (start_inv height blocks)).sent tx h
+
+/-- **next_operation_submits_only_for_held_appointments**: in the state reached by any history, whatever
+the next operation submits is justified by an appointment held *at that moment* (or accepted by this
+very request): nothing is submitted on behalf of appointments that were deleted, whose owner was
+removed, or that were never triggered. -/
+theorem next_operation_submits_only_for_held_appointments (cfg : Cfg) (height : Nat) (blocks : List (Nat × List TxId))
+    (hist : List (Node × Op)) (node : Node) (op : Op) (tx : TxId) :
+    let sg := runG cfg (start height blocks) hist
+    Rpc.send tx ∈ (step cfg sg.1 node op).2.2 →
+    JustifiedBy (heldDuring sg.1 node op) (sg.2.seen ++ opTxs op) tx := by
+  intro sg h
+  exact (stepOk_step cfg sg.1 sg.2.seen node op (ginv_runG cfg hist _ (start_inv height blocks)).just).sends tx h
+
+/-- **responded_only_when_justified**: in every reachable state, an appointment reported as
+`dispute_responded` (a tracker row) still has its appointment row, whose blob decrypts under the
+tracker's dispute id to exactly the tracker's penalty, and that dispute was seen in a connected block -/
+theorem responded_only_when_justified (cfg : Cfg) (height : Nat) (blocks : List (Nat × List TxId))
+    (hist : List (Node × Op)) (k : Uuid) (t : Tracker) :
+    let sg := runG cfg (start height blocks) hist
+    sg.1.db.trackers k = some t →
+    ∃ a, sg.1.db.appts k = some a ∧ a.blob.decrypt t.dispute = some t.penalty ∧ t.dispute ∈ sg.2.seen ∧
+      locOf t.dispute = k.1 := by
+  intro sg h
+  exact (ginv_runG cfg hist _ (start_inv height blocks)).just.trk k t h
+
+/-- **held_appointments_were_accepted**: every appointment row of a reachable state was answered with a
+receipt earlier in the history -/
+theorem held_appointments_were_accepted (cfg : Cfg) (height : Nat) (blocks : List (Nat × List TxId))
+    (hist : List (Node × Op)) (k : Uuid) (a : Appt) :
+    let sg := runG cfg (start height blocks) hist
+    sg.1.db.appts k = some a → (k, a.blob) ∈ sg.2.accepted := by
+  intro sg h
+  exact (ginv_runG cfg hist _ (start_inv height blocks)).held k a.blob ⟨a, h, rfl⟩
+
+/-- **restart_keeps_justification**: restarting on the database of any reachable state (any recent
+blocks handed to the bootstrap) gives a state in which the invariant holds again -/
+theorem restart_keeps_justification (cfg : Cfg) (height : Nat) (blocks : List (Nat × List TxId))
+    (hist : List (Node × Op)) (height' : Nat) (blocks' : List (Nat × List TxId)) :
+    let sg := runG cfg (start height blocks) hist
+    GInv (boot sg.1.db height' blocks', { sg.2 with seen := sg.2.seen ++ blocks'.flatMap (·.2) }) := by
+  intro sg
+  have gi := ginv_runG cfg hist _ (start_inv height blocks)
+  refine ⟨just_boot _ _ _ _ (gi.just.trk.mono (fun x h => List.mem_append.2 (Or.inl h))) ?_, gi.held, ?_⟩
+  · intro b hb x hx
+    exact List.mem_append.2 (Or.inr (List.mem_flatMap.2 ⟨b, hb, hx⟩))
+  · intro tx h
+    exact (gi.sent tx h).mono (fun _ _ hh => hh) (fun x hh => List.mem_append.2 (Or.inl hh))
+
+/-! the hypotheses are met and the conclusion is not vacuous: a history in which a penalty is submitted -/
+
+def demoNode : Node := { send := fun _ => .ok, get := fun _ => .rpc (-5) }
+def demoCfg : Cfg := { slots := 10, duration := 100, grace := 10 }
+def demoHist : List (Node × Op) :=
+  [(demoNode, .register 7), (demoNode, .add (some 7) 2 (.enc 32 99 10) 20 1),
+   (demoNode, .connect 1000 101 [32, 500]), (demoNode, .connect 1001 102 [])]
+
+example : (runG demoCfg (start 100 []) demoHist).2.sent = [99] := by decide
+example : (runG demoCfg (start 100 []) demoHist).2.accepted = [((2, 7), .enc 32 99 10)] := by decide
 
 end Teos.C02
